@@ -94,6 +94,40 @@ pub fn threads<W: Write>(n: usize, records: Vec<String>, out: &mut W) {
                     diffs.push(i);
                 }
             }
+            // parsers that are alive at the same time on one thread, dropped in either order: every third record
+            // is parsed while a parser of its neighbour exists (and has read its first token or not)
+            for k in (0..m).step_by(3) {
+                let i = (k * stride + t * 7919) % m;
+                let j = (i + 1) % m;
+                let line = guarded(|| {
+                    let mut held = gosyn::Parser::from(&records[j]);
+                    if k % 2 == 0 {
+                        let _ = held.parse_stmt();
+                    }
+                    let l = observe(&records[i]);
+                    if k % 4 < 2 {
+                        drop(held);
+                        l
+                    } else {
+                        let l2 = l.clone();
+                        drop(l);
+                        drop(held);
+                        l2
+                    }
+                });
+                if line != baseline[i] {
+                    diffs.push(i);
+                }
+                // and what the thread parses next, in both orders
+                let again_i = guarded(|| observe(&records[i]));
+                if again_i != baseline[i] {
+                    diffs.push(i);
+                }
+                let again = guarded(|| observe(&records[j]));
+                if again != baseline[j] {
+                    diffs.push(j);
+                }
+            }
             diffs
         }).unwrap());
     }
